@@ -67,6 +67,9 @@ class SGen:
         self.scopes = [{}]
         self.out = [[]]                            # stack of statement lists being built
         self.ret_stack = []                        # per inlined function: dict(var=..., done=..., sort=...)
+        self.gregions = {}; self.ginit = []
+        self.ptrfields = {}; self.pf_bound = {}; self.extra_inputs = []
+        self.brk_stack = []; self.body_stack = []; self.indirect = {}
         self.depth = 0
 
     # ---------- infrastructure
@@ -80,7 +83,35 @@ class SGen:
     def lookup(self, name):
         for s in reversed(self.scopes):
             if name in s: return s[name]
+        if name in self.tu.globals: return self.global_region(name)
         raise Unsupported("unknown identifier '%s'" % name)
+    def global_region(self, name):
+        """a const global array: its own region, filled with its constants before the function body"""
+        if name in self.gregions: return self.gregions[name]
+        d = self.tu.globals[name]
+        t = strip_q(ctype(d)); tq = d["type"]["qualType"]
+        if "const" not in tq: raise Unsupported("global '%s' is not const (mutable global state)" % name)
+        m = re.match(r"(.*?)\s*((?:\[\d+\])+)$", t)
+        if not m: raise Unsupported("global '%s' of type '%s'" % (name, t))
+        et = m.group(1).strip(); dims = [int(x) for x in re.findall(r"\[(\d+)\]", m.group(2))]
+        if et not in WIDTHS: raise Unsupported("global '%s' of element type '%s'" % (name, et))
+        ew = WIDTHS[et][0]; total = ew // 8
+        for x in dims: total *= x
+        r = self.region(name, total)
+        init = [c for c in d.get("inner", []) if c.get("kind") == "InitListExpr"]
+        if not init: raise Unsupported("global '%s' has no initialiser" % name)
+        leaves = []
+        def walk(n):
+            if n.get("kind") == "InitListExpr":
+                for c in n.get("inner", []): walk(c)
+            else: leaves.append(self.const(n) & ((1 << ew) - 1))
+        walk(init[0])
+        n_el = total // (ew // 8)
+        leaves += [0] * (n_el - len(leaves))
+        for i, v in enumerate(leaves[:n_el]):
+            self.ginit.append("SDStore %d (PConst %d) %d (DConst %d %d)" % (r, i * (ew // 8), ew // 8, ew, v))
+        self.gregions[name] = ("obj", r, "PConst 0", t)
+        return self.gregions[name]
     def bind(self, name, v): self.scopes[-1][name] = v
     def bad(self, n, what=None):
         raise Unsupported("%s at %s" % (what or n.get("kind"), loc_of(n)))
@@ -182,6 +213,18 @@ class SGen:
             return (r, "PBin %s 64 (%s) (%s)" % ("PAdd" if n["opcode"] == "+" else "PSub", off, step), pt, nl)
         if k == "ConditionalOperator":
             self.bad(n, "conditional pointer")
+        if k == "UnaryOperator" and n.get("opcode") in ("++", "--"):
+            lv = self.lvalue(n["inner"][0])
+            if lv[0] != "ptr" or lv[5] is None: self.bad(n, "increment of a pointer bound to a fixed place")
+            step = "PBin %s 64 (PVar %d) (PConst %d)" % ("PAdd" if n["opcode"] == "++" else "PSub", lv[5], self.sizeof(lv[3]))
+            if n.get("isPostfix"):
+                t = self.new_pub("old"); self.emit("SPub %d (PVar %d)" % (t, lv[5])); self.emit("SPub %d (%s)" % (lv[5], step))
+                return (lv[1], "PVar %d" % t, lv[3], lv[4])
+            self.emit("SPub %d (%s)" % (lv[5], step))
+            return (lv[1], "PVar %d" % lv[5], lv[3], lv[4])
+        if k == "MemberExpr":
+            lv = self.lvalue(n)
+            if lv[0] == "ptrval": return (lv[1], lv[2], lv[3], lv[4])
         self.bad(n0, "pointer expression of kind %s" % k)
 
     # ---------- lvalues: ('pub', idx, w, s) | ('data', idx, w, s) | ('mem', r, off pexpr, nbytes, signed, typename, public?) | ('obj', r, off, typename)
@@ -220,6 +263,10 @@ class SGen:
                 o2 = "PBin PAdd 64 (%s) (%s)" % (off, i if es == 1 else "PBin PMul 64 (%s) (PConst %d)" % (i, es))
             return self.typed_place(r, o2, pt, False, None)
         if k == "UnaryOperator" and n["opcode"] == "*":
+            t_ = strip_casts(n["inner"][0])
+            if t_.get("kind") == "DeclRefExpr":
+                v_ = self.lookup(t_["referencedDecl"]["name"])
+                if v_[0] == "localptr": return v_[1]
             r, off, pt, nl = self.ptr(n["inner"][0])
             if r is None: self.bad(n, "dereference of a null pointer")
             return self.typed_place(r, off, pt, False, None)
@@ -247,8 +294,18 @@ class SGen:
             return ("mem", r, off, w // 8, s, t, public)
         v = vec_of(t) or (vec_of(strip_q(ctype_of_typedef(self.tu, t))) if t in self.tu.typedefs else None)
         if v: return ("mem", r, off, v[0] * v[1] // 8, v[2], t, False)
-        if t.endswith("*"): raise Unsupported("pointer stored in memory (%s)" % (label or t))
+        if t.endswith("*"):
+            if label and label in self.ptrfields: return self.ptrfield(label)
+            raise Unsupported("pointer stored in memory (%s)" % (label or t))
         return ("obj", r, off, t)
+    def ptrfield(self, label):
+        """a pointer field of a caller-owned object that points to a separate (library-allocated) object: its own region"""
+        if label not in self.pf_bound:
+            rname, pointee = self.ptrfields[label]
+            r = self.region(rname, self.sizeof(pointee))
+            z = self.new_pub(rname + "_null"); self.extra_inputs.append({"name": rname + "_null", "var": z})
+            self.pf_bound[label] = ("ptrval", r, "PConst 0", pointee, "PVar %d" % z)
+        return self.pf_bound[label]
     def vtype(self, n):
         t = strip_q(ctype(n))
         return vec_of(t)
@@ -256,6 +313,7 @@ class SGen:
     # ---------- public expressions: (pexpr, width, signed)
     def pub(self, n):
         n = unparen(n); k = n.get("kind")
+        if self.vtype(n): raise Secret("vector value at %s" % loc_of(n))
         c = None
         if k in ("IntegerLiteral", "UnaryExprOrTypeTraitExpr", "CharacterLiteral"):
             st = self.scalar_type(n) or (64, False)
@@ -272,6 +330,8 @@ class SGen:
         if k in ("MemberExpr", "ArraySubscriptExpr") or (k == "UnaryOperator" and n.get("opcode") == "*"):
             if k == "ArraySubscriptExpr" and self.vtype(n["inner"][0]): raise Secret("vector lane at %s" % loc_of(n))
             lv = self.lvalue(n)
+            if lv[0] == "pub": return ("PVar %d" % lv[1], lv[2], lv[3])
+            if lv[0] == "data": raise Secret("data through a pointer at %s" % loc_of(n))
             if lv[0] == "mem" and lv[6]:
                 m = re.match(r"^PConst (\d+)$", lv[2])
                 return ("PField %d %d %d" % (lv[1], int(m.group(1)), lv[3]), lv[3] * 8, lv[4])
@@ -370,6 +430,7 @@ class SGen:
             return ("DSlice (%s) %d %d" % (e, idx * ew, ew), ew, sg)
         if k in ("MemberExpr", "ArraySubscriptExpr") or (k == "UnaryOperator" and n.get("opcode") == "*"):
             lv = self.lvalue(n)
+            if lv[0] == "data": return ("DLocal %d" % lv[1], lv[2], lv[3])
             if lv[0] != "mem": self.bad(n, "load of an aggregate")
             return ("DLoad %d (%s) %d" % (lv[1], lv[2], lv[3]), lv[3] * 8, lv[4])
         if k == "CompoundLiteralExpr": return self.data(n["inner"][0])
@@ -403,13 +464,21 @@ class SGen:
                 st = self.scalar_type(n); sg = st[1] if st else sa
                 return ("DBin %s (%s) (%s)" % ({"&": "BAnd", "|": "BOr", "^": "BXor"}[o], a, b), wa, sg)
             if o in ("<<", ">>"):
-                a, wa, sa = self.data(n["inner"][0]); kk = self.try_const(n["inner"][1])
+                cnt_ = unparen(n["inner"][1])
+                while cnt_.get("kind") in ("ImplicitCastExpr", "CStyleCastExpr") and cnt_.get("castKind") == "VectorSplat":
+                    cnt_ = unparen(cnt_["inner"][0])             # x << (vector)count: the count is the scalar
+                a, wa, sa = self.data(n["inner"][0]); kk = self.try_const(cnt_)
                 if kk is None:
                     raise Unsupported("secret-dependent or non-constant shift count at %s" % loc_of(n))
                 v = self.vtype(n["inner"][0]); lw = v[0] if v else wa
                 if not (0 <= kk < lw): self.bad(n, "shift count %d" % kk)
                 if o == "<<": return ("DShl %d (%s) %d" % (lw, a, kk), wa, sa)
                 return ("%s %d (%s) %d" % ("DShrA" if sa else "DShrL", lw, a, kk), wa, sa)
+            if o == "+":
+                a, wa, sa = self.data(n["inner"][0]); b, wb, sb = self.data(n["inner"][1])
+                if wa != wb: self.bad(n, "operand widths %d/%d of +" % (wa, wb))
+                st = self.scalar_type(n); sg = st[1] if st else sa
+                return ("DAdd (%s) (%s)" % (a, b), wa, sg)
             if o == ",":
                 self.stmt(n["inner"][0]); return self.data(n["inner"][1])
             raise Unsupported("secret-dependent arithmetic: operator %s on data at %s (only & | ^ ~ << >> are data operators)" % (o, loc_of(n)))
@@ -427,7 +496,26 @@ class SGen:
         callee = strip_casts(n["inner"][0])
         name = callee.get("referencedDecl", {}).get("name")
         args = n["inner"][1:]
-        if name is None: raise Unsupported("indirect call at %s (function pointers are dispatch, translated per back end)" % loc_of(n))
+        if name is None:
+            # indirect call through a vtable field: dispatch, resolved by the harness per back end
+            fld = None
+            def find_member(x):
+                nonlocal fld
+                if isinstance(x, dict):
+                    if x.get("kind") == "MemberExpr" and fld is None: fld = x.get("name")
+                    for c_ in x.get("inner", []) or []: find_member(c_)
+            find_member(n["inner"][0])
+            if fld is not None and fld in self.indirect:
+                target = self.indirect[fld]
+                if target is None:
+                    self.emit("SPub 0 (PVar 4000000)")          # unreachable at this public configuration: makes [flat] fail if reached
+                    return None
+                for t_ in [self.tu] + list(getattr(self.tu, "others", [])):
+                    if target in t_.funcs:
+                        if not hasattr(t_, "others"): t_.others = []
+                        return self.inline(t_.funcs[target], args, n, body_tu=(t_ if t_ is not self.tu else None))
+                raise Unsupported("indirect call target %s not found" % target)
+            raise Unsupported("indirect call at %s (function pointers are dispatch, translated per back end)" % loc_of(n))
         if name == "memcpy" or name == "__builtin_memcpy" or name == "memmove":
             d = self.ptr(args[0]); s = self.ptr(args[1]); k, w, sg = self.pubsize(args[2])
             if d[0] is None or s[0] is None: self.bad(n, "memcpy with a null pointer")
@@ -441,19 +529,30 @@ class SGen:
             e, w, s = self.data(args[0])
             return ("data", "DCall %d (%s)" % (self.opaque[name], e), w, s)
         f = self.tu.funcs.get(name)
-        if f is None: raise Unsupported("call to external function %s at %s" % (name, loc_of(n)))
+        if f is None:
+            for other in getattr(self.tu, "others", []):
+                if name in other.funcs:
+                    if not hasattr(other, "others"): other.others = []
+                    return self.inline(other.funcs[name], args, n, body_tu=other)
+            raise Unsupported("call to external function %s at %s" % (name, loc_of(n)))
         return self.inline(f, args, n)
     def pubsize(self, n):
         try: return self.pub(n)
         except Secret as e: raise Unsupported("secret-dependent size: %s" % e)
 
-    def inline(self, f, args, site):
+    def inline(self, f, args, site, body_tu=None):
         if self.depth > 12: self.bad(site, "inlining depth")
         params = [c for c in f["inner"] if c.get("kind") == "ParmVarDecl"]
         body = [c for c in f["inner"] if c.get("kind") == "CompoundStmt"][0]
         scope = {}
         for p, a in zip(params, args):
             if self.is_ptr_type(p):
+                t_ = strip_casts(a)
+                if t_.get("kind") == "UnaryOperator" and t_.get("opcode") == "&":
+                    try: lv_ = self.lvalue(t_["inner"][0])
+                    except Unsupported: lv_ = None
+                    if lv_ and lv_[0] in ("data", "pub"):
+                        scope[p["name"]] = ("localptr", lv_); continue
                 r, off, pt, nl = self.ptr(a)
                 if self.assigned_in(body, p["name"]) or not re.match(r"^PConst \d+$", off):
                     x = self.new_pub(p["name"]); self.emit("SPub %d (%s)" % (x, off)); off = "PVar %d" % x
@@ -485,10 +584,13 @@ class SGen:
         rt = strip_q(f["type"]["qualType"].split("(")[0])
         rinfo = {"id": f["id"], "void": rt == "void", "tail_only": self.returns_only_at_tail(body)}
         if not rinfo["void"]:
-            st = WIDTHS.get(rt) or (vec_of(rt) and (vec_of(rt)[0] * vec_of(rt)[1], vec_of(rt)[2])) or (self.tu.typedefs.get(rt) and WIDTHS.get(strip_q(ctype_of_typedef(self.tu, rt))))
+            rtd = strip_q(ctype_of_typedef(self.tu, rt)) if rt in self.tu.typedefs else rt
+            if body_tu is not None and rt in body_tu.typedefs: rtd = strip_q(ctype_of_typedef(body_tu, rt))
+            vrt = vec_of(rt) or vec_of(rtd)
+            st = WIDTHS.get(rt) or WIDTHS.get(rtd) or (vrt and (vrt[0] * vrt[1], vrt[2]))
             if not st: self.bad(site, "return type '%s'" % rt)
             rinfo["w"], rinfo["s"] = st
-            if ("ret", f["id"]) in self.datavars or vec_of(rt):
+            if ("ret", f["id"]) in self.datavars or vrt:
                 rinfo["sort"] = "data"; rinfo["var"] = self.new_data(st[0])
             else:
                 rinfo["sort"] = "pub"; rinfo["var"] = self.new_pub("ret_" + f["name"])
@@ -496,10 +598,13 @@ class SGen:
             rinfo["done"] = self.new_pub("done_" + f["name"]); self.emit("SPub %d (PConst 0)" % rinfo["done"])
         self.ret_stack.append(rinfo)
         saved = self.scopes; self.scopes = [self.scopes[0], scope]; self.depth += 1
+        saved_tu = self.tu; saved_brk = self.brk_stack; self.brk_stack = []
+        if body_tu is not None: self.tu = body_tu
+        self.body_stack.append(body)
         try:
             self.block(body)
         finally:
-            self.scopes = saved; self.depth -= 1; self.ret_stack.pop()
+            self.scopes = saved; self.depth -= 1; self.ret_stack.pop(); self.tu = saved_tu; self.brk_stack = saved_brk; self.body_stack.pop()
         if rinfo["void"]: return None
         if rinfo["sort"] == "pub": return ("pub", "PVar %d" % rinfo["var"], rinfo["w"], rinfo["s"])
         return ("data", "DLocal %d" % rinfo["var"], rinfo["w"], rinfo["s"])
@@ -549,11 +654,16 @@ class SGen:
         d = self.done_expr()
         for i, s in enumerate(stmts):
             may = d is not None and self.may_return(s)
+            mayb = bool(self.brk_stack) and self.has_break(s)
             self.stmt(s)
-            if may and i + 1 < len(stmts):
+            if (may or mayb) and i + 1 < len(stmts):
                 rest = stmts[i + 1:]
                 lst = self.guarded(lambda: self.seq(rest))
-                if lst: self.emit("SIf (PNot (%s)) %s []" % (d, self.fmt(lst)))
+                g = []
+                if may: g.append("PNot (%s)" % d)
+                if mayb: g.append("PNot (PVar %d)" % self.brk_stack[-1])
+                cond = g[0] if len(g) == 1 else "PBin PLAnd 32 (%s) (%s)" % (g[0], g[1])
+                if lst: self.emit("SIf (%s) %s []" % (cond, self.fmt(lst)))
                 return
     def may_return(self, n):
         if not isinstance(n, dict): return False
@@ -605,7 +715,10 @@ class SGen:
             return
         if k == "WhileStmt":
             self.loop(s["inner"][0], s["inner"][1], None, s); return
-        if k in ("BreakStmt", "ContinueStmt", "DoStmt", "SwitchStmt", "GotoStmt"):
+        if k == "BreakStmt":
+            if not self.brk_stack: self.bad(s, "break outside a loop")
+            self.emit("SPub %d (PConst 1)" % self.brk_stack[-1]); return
+        if k in ("ContinueStmt", "DoStmt", "SwitchStmt", "GotoStmt"):
             self.bad(s, "statement %s" % k)
         # expression statements
         self.effect(s)
@@ -615,11 +728,28 @@ class SGen:
         except Secret as e: raise Unsupported("secret-dependent loop condition: %s" % e)
         d = self.done_expr()
         if d is not None and self.may_return(body): c = "PBin PLAnd 32 (PNot (%s)) (%s)" % (d, c)
+        has_brk = self.has_break(body)
+        if has_brk:
+            bv = self.new_pub("brk"); self.emit("SPub %d (PConst 0)" % bv); self.brk_stack.append(bv)
+            c = "PBin PLAnd 32 (PNot (PVar %d)) (%s)" % (bv, c)
         def b():
             self.stmt(body)
-            if inc: self.effect(inc)
-        lst = self.guarded(b)
+            if inc:
+                if has_brk:
+                    lst2 = self.guarded(lambda: self.effect(inc))
+                    self.emit("SIf (PNot (PVar %d)) %s []" % (bv, self.fmt(lst2)))
+                else: self.effect(inc)
+        try:
+            lst = self.guarded(b)
+        finally:
+            if has_brk: self.brk_stack.pop()
         self.emit("SWhile (%s) %s" % (c, self.fmt(lst)))
+    def has_break(self, n):
+        """a break that belongs to this loop (not to a nested one)"""
+        if not isinstance(n, dict): return False
+        if n.get("kind") == "BreakStmt": return True
+        if n.get("kind") in ("ForStmt", "WhileStmt", "DoStmt"): return False
+        return any(self.has_break(c) for c in n.get("inner", []) or [])
 
     def decl(self, d):
         t = strip_q(ctype(d)); tq = strip_q(d["type"]["qualType"])
@@ -649,6 +779,13 @@ class SGen:
                 e, w2, s2 = self.data(init); self.emit("SData %d (%s)" % (x, e))
             return
         if t.endswith("*"):
+            body = self.body_stack[-1] if self.body_stack else None
+            if body is not None and self.count_ptr_updates(body, d["name"]) <= (0 if init is not None else 1):
+                # assigned exactly once (here or later) and never moved: bound to the place it is given, no variable
+                info = ["ptr", None, None, self.pointee(t), None, None, None, "single"]
+                self.bind(d["name"], info)
+                if init is not None: self.assign_ptr(info, init)
+                return
             x = self.new_pub(d["name"]); z = self.new_pub(d["name"] + "_null")
             info = ["ptr", None, "PVar %d" % x, self.pointee(t), "PVar %d" % z, x, z]
             self.bind(d["name"], info)
@@ -665,8 +802,30 @@ class SGen:
                 self.emit("SCopy %d (PConst 0) %d (%s) (PConst %d)" % (r, src[1], src[2], size))
             return
         self.bad(d, "declaration of type '%s'" % t)
+    def count_ptr_updates(self, body, name):
+        cnt = [0]
+        def walk(n):
+            if not isinstance(n, dict): return
+            k = n.get("kind")
+            if k in ("BinaryOperator", "CompoundAssignOperator") and (k == "CompoundAssignOperator" or n.get("opcode") == "="):
+                t = strip_casts(n["inner"][0])
+                if t.get("kind") == "DeclRefExpr" and t["referencedDecl"]["name"] == name: cnt[0] += 1 if k == "BinaryOperator" else 99
+            if k == "UnaryOperator" and n.get("opcode") in ("++", "--", "&"):
+                t = strip_casts(n["inner"][0])
+                if t.get("kind") == "DeclRefExpr" and t["referencedDecl"]["name"] == name: cnt[0] += 99
+            if k in ("ForStmt", "WhileStmt", "DoStmt"):
+                before = cnt[0]
+                for c in n.get("inner", []) or []: walk(c)
+                if cnt[0] > before: cnt[0] += 99          # assigned inside a loop: not single
+                return
+            for c in n.get("inner", []) or []: walk(c)
+        walk(body); return cnt[0]
     def assign_ptr(self, info, rhs):
         r, off, pt, nl = self.ptr(rhs)
+        if len(info) > 7 and info[7] == "single":
+            if info[2] is not None: raise Unsupported("second assignment to a single-assignment pointer at %s" % loc_of(rhs))
+            info[1] = r; info[2] = off; info[4] = nl
+            return
         if r is not None:
             if info[1] is None: info[1] = r
             elif info[1] != r: raise Unsupported("pointer variable bound to two different regions at %s" % loc_of(rhs))
@@ -744,6 +903,9 @@ class SGen:
                 if kk is None: raise Unsupported("secret-dependent or non-constant shift count at %s" % loc_of(s))
                 v = vec_of(ct); lw = v[0] if v else cw
                 e = ("DShl %d (%s) %d" % (lw, a, kk)) if op == "<<" else ("%s %d (%s) %d" % ("DShrA" if cs else "DShrL", lw, a, kk))
+            elif op == "+" and not vec_of(ct):
+                b, wb, sb = self.data(rhs); b = conv_d(b, wb, sb, cw)
+                e = "DAdd (%s) (%s)" % (a, b)
             else:
                 raise Unsupported("secret-dependent arithmetic: %s on data at %s (only & | ^ ~ << >> are data operators)" % (o, loc_of(s)))
             w2, s2 = cw, cs
@@ -765,12 +927,13 @@ class SGen:
         return conv_p("PBin %s %d (%s) (%s)" % (name, cw, a, b), cw, cs, w)
 
 
-def translate_function(tu, fname, pubfields, alias=None, sizes=None, extra_pub_params=()):
+def translate_function(tu, fname, pubfields, alias=None, sizes=None, extra_pub_params=(), ptrfields=None, indirect=None):
     """Returns dict: regions, fields, params (public parameter locals in order), code (SIR statement list as a Coq term), ..."""
     f = tu.funcs[fname]
     datavars = set()
     for attempt in range(64):
         g = SGen(tu, pubfields, datavars)
+        g.ptrfields = ptrfields or {}; g.indirect = indirect or {}
         try:
             info = _translate(g, f, alias or {}, sizes or {})
             return info
@@ -818,9 +981,10 @@ def _translate(g, f, alias, sizes):
     if not rinfo["tail_only"]:
         rinfo["done"] = g.new_pub("done"); g.emit("SPub %d (PConst 0)" % rinfo["done"])
     g.ret_stack.append(rinfo)
+    g.body_stack.append(body)
     g.block(body)
-    return {"name": f["name"], "regions": g.regions, "fields": g.fields, "params": pinfo, "code": g.out[0],
-            "ret": rinfo.get("var"), "npub": g.npub, "pubnames": g.pubnames, "dwidths": g.dwidths}
+    return {"name": f["name"], "regions": g.regions, "fields": g.fields, "params": pinfo, "code": g.ginit + g.out[0], "globals": sorted(g.gregions),
+            "ret": rinfo.get("var"), "npub": g.npub, "extra_inputs": g.extra_inputs, "pubnames": g.pubnames, "dwidths": g.dwidths}
 
 def coq_list(items, indent="  "):
     return "[\n" + indent + (";\n" + indent).join(items) + "\n]"
